@@ -27,7 +27,13 @@ import (
 //
 // Names in op lines: "~" = empty string, "+" = space. Addresses: A B C D accounts, N a valid
 // address without an account, G the gov module account (the keeper authority), X not bech32,
-// "-" the empty string.
+// "-" the empty string. A trailing "^" (A^) is the all-upper-case bech32 spelling of the same
+// address (sdk.AccAddressFromBech32 accepts it; addr.String() is the canonical lower-case one).
+//
+// "genesis <min> <max> <levels> <name/addr/restricted,...>" runs GenesisState.Validate and
+// Keeper.InitGenesis on the current history's state (generated at the start of a history: the
+// tree of names a chain starts from comes from a hand-written genesis file); "rlookup <addr>" is
+// the ReverseLookup query with the address spelled as given.
 
 func init() {
 	drivers["name"] = driveName
@@ -76,6 +82,9 @@ func newNameEnv(t *testing.T) *nameEnv {
 	}
 	a.AccountKeeper.GetModuleAccount(ctx, govtypes.ModuleName) // make sure the gov account exists
 	e.addr["G"] = authtypes.NewModuleAddress(govtypes.ModuleName).String()
+	for _, s := range nameAddrSyms {
+		e.addr[s+"^"] = strings.ToUpper(e.addr[s])
+	}
 	e.addr["X"] = "notbech32"
 	e.addr["-"] = ""
 	for s, b := range e.addr {
@@ -231,6 +240,38 @@ func (e *nameEnv) exec(op string) string {
 		return "ok"
 	case ws[0] == "dump" && len(ws) == 1:
 		return e.dump()
+	case ws[0] == "genesis" && len(ws) == 5:
+		var p [3]uint64
+		for i := range p {
+			p[i], _ = strconv.ParseUint(ws[i+1], 10, 32)
+		}
+		gs := nametypes.GenesisState{Params: nametypes.NewParams(uint32(p[1]), uint32(p[0]), uint32(p[2]), true)}
+		if ws[4] != "-" {
+			for _, w := range strings.Split(ws[4], ",") {
+				f := strings.Split(w, "/")
+				if len(f) != 3 {
+					return "bad-op"
+				}
+				gs.Bindings = append(gs.Bindings, nametypes.NameRecord{Name: nameDec(f[0]), Address: e.a(f[1]), Restricted: b(f[2])})
+			}
+		}
+		if gs.Validate() != nil {
+			return "err:basic"
+		}
+		return e.initGenesis(gs)
+	case ws[0] == "rlookup" && len(ws) == 2:
+		return Guard(func() string {
+			resp, err := e.app.NameKeeper.ReverseLookup(e.ctx, &nametypes.QueryReverseLookupRequest{Address: e.a(ws[1])})
+			if err != nil {
+				return nameErrClass(err)
+			}
+			var v []string
+			for _, n := range resp.Name {
+				v = append(v, nameEnc(n)+"/") // "/" keeps the name "-" apart from the empty list
+			}
+			sort.Strings(v)
+			return "ok " + JoinOr(v, ";")
+		})
 	case ws[0] == "resolve" && len(ws) == 2:
 		return Guard(func() string {
 			n := nameDec(ws[1])
@@ -269,6 +310,23 @@ func (e *nameEnv) exec(op string) string {
 		return e.msg(m.ValidateBasic, func(ctx sdk.Context) error { _, err := e.ms.DeleteName(ctx, m); return err })
 	}
 	return "bad-op"
+}
+
+// initGenesis runs Keeper.InitGenesis on a cached context (written only when it does not panic:
+// a chain whose genesis panics does not start) and classifies the panic by its error.
+func (e *nameEnv) initGenesis(gs nametypes.GenesisState) (res string) {
+	cctx, write := e.ctx.CacheContext()
+	defer func() {
+		if r := recover(); r != nil {
+			res = "panic:other"
+			if err, ok := r.(error); ok {
+				res = "panic:" + strings.TrimPrefix(nameErrClass(err), "err:")
+			}
+		}
+	}()
+	e.app.NameKeeper.InitGenesis(cctx, gs)
+	write()
+	return "ok"
 }
 
 func (e *nameEnv) newHistory() { e.ctx, _ = e.base.CacheContext() }
@@ -375,6 +433,114 @@ func (g *nameGen) other(owner string) string {
 	return "D"
 }
 
+// sp spells an address symbol: in a minority of uses the all-upper-case bech32 form of the same
+// address (a message or genesis file may carry either spelling).
+func (g *nameGen) sp(sym string, pct int) string {
+	if len(sym) == 1 && strings.Contains("ABCDNG", sym) && g.r.Chance(pct) {
+		g.out.Count("addr-spelling:upper")
+		return sym + "^"
+	}
+	return sym
+}
+
+// genesis builds a genesis state for the name module the way a chain's genesis file is written by
+// hand: a few roots, names below them (sometimes below a name the file does not bind: InitGenesis
+// checks no parents), names and addresses in either accepted spelling, parents before or after
+// their children; a minority is malformed (duplicate or key-colliding names, names outside the
+// limits, an address that is not bech32 or blank).
+func (g *nameGen) genesis() {
+	r := g.r
+	p := [3]int{2, 32, 16}
+	if r.Chance(20) {
+		p = Pick(r, nameParamSets)
+		g.out.Count("genesis:params=custom")
+	}
+	seg := func() string { // mostly well-formed: one bad segment refuses the whole file
+		if r.Chance(2) {
+			return Pick(r, nameOddSegs)
+		}
+		return Pick(r, nameSegPool)
+	}
+	var names []string
+	for k := 1 + r.Intn(3); k > 0; k-- {
+		names = append(names, seg())
+	}
+	orphans := 0
+	for k := r.Intn(7); k > 0; k-- {
+		parent := Pick(r, names)
+		if r.Chance(12) {
+			parent = seg() + "." + parent // a name below a name the file does not bind
+			orphans++
+		}
+		names = append(names, seg()+"."+parent)
+	}
+	if r.Chance(6) {
+		names = append(names, Pick(r, names)) // twice the same name
+		g.out.Count("genesis:duplicate-name")
+	}
+	if r.Chance(6) {
+		if pt := namePartner(r, Pick(r, names), p[0]); pt != "" {
+			names = append(names, pt)
+			g.out.Count("genesis:aimed-at-collision")
+		}
+	}
+	if r.Chance(30) { // children before their parents
+		for i := len(names) - 1; i > 0; i-- {
+			j := r.Intn(i + 1)
+			names[i], names[j] = names[j], names[i]
+		}
+		g.out.Count("genesis:order=shuffled")
+	}
+	upper := 0
+	var bs []string
+	for _, n := range names {
+		switch r.Intn(12) {
+		case 0:
+			n = strings.ToUpper(n)
+		case 1:
+			n = "+" + strings.Replace(n, ".", "+.+", 1) + "+"
+		}
+		ad := g.acct()
+		switch {
+		case r.Chance(4):
+			ad = Pick(r, []string{"X", "-", "G"})
+		case r.Chance(35):
+			ad += "^"
+			upper++
+		}
+		bs = append(bs, nameEnc(n)+"/"+ad+"/"+nameBoolStr(r.Bool()))
+	}
+	res := g.emit(fmt.Sprintf("genesis %d %d %d %s", p[0], p[1], p[2], JoinOr(bs, ",")))
+	g.out.Count("op:genesis")
+	g.out.Count("genesis:" + res)
+	if res == "ok" {
+		g.min = p[0]
+		g.out.Count(fmt.Sprintf("genesis:ok:upper-case-addresses=%d", minInt(upper, 4)))
+		g.out.Count(fmt.Sprintf("genesis:ok:orphans=%d", minInt(orphans, 2)))
+		g.out.Count(fmt.Sprintf("genesis:ok:bindings=%d", len(bs)))
+	}
+}
+
+// rlookup asks the ReverseLookup query about an address in one of its spellings.
+func (g *nameGen) rlookup() {
+	ad := g.sp(g.acct(), 50)
+	if g.r.Chance(5) {
+		ad = Pick(g.r, []string{"X", "G", "G^"})
+	}
+	res := g.emit("rlookup " + ad)
+	k := "canonical"
+	if strings.HasSuffix(ad, "^") {
+		k = "upper"
+	}
+	names := "some"
+	if res == "ok -" {
+		names = "none"
+	} else if !strings.HasPrefix(res, "ok") {
+		names = res
+	}
+	g.out.Count("rlookup:spelling=" + k + ",names=" + names)
+}
+
 func nameBoolStr(b bool) string {
 	if b {
 		return "1"
@@ -476,6 +642,14 @@ func (g *nameGen) history() {
 		g.out.Count("params:default")
 	}
 	g.emit("dump")
+	if r.Chance(40) {
+		// the history starts from a genesis file instead of the empty store
+		g.genesis()
+		g.emit("dump")
+		if r.Chance(50) {
+			g.rlookup()
+		}
+	}
 	steps := 8 + r.Intn(20)
 	for i := 0; i < steps; i++ {
 		recs := e.records()
@@ -527,7 +701,7 @@ func (g *nameGen) history() {
 				}
 			}
 			target = child + "." + pn
-			op = fmt.Sprintf("bind %s %s %s %s %s", nameEnc(g.variant(pn)), signer, nameEnc(child), g.anyAddr(), nameBoolStr(r.Bool()))
+			op = fmt.Sprintf("bind %s %s %s %s %s", nameEnc(g.variant(pn)), g.sp(signer, 7), nameEnc(child), g.sp(g.anyAddr(), 7), nameBoolStr(r.Bool()))
 		case kind < 63: // modify
 			var n, auth string
 			owner := ""
@@ -559,7 +733,7 @@ func (g *nameGen) history() {
 				to = owner
 			}
 			target = n
-			op = fmt.Sprintf("modify %s %s %s %s", auth, nameEnc(g.variant(n)), to, nameBoolStr(r.Bool()))
+			op = fmt.Sprintf("modify %s %s %s %s", g.sp(auth, 7), nameEnc(g.variant(n)), g.sp(to, 7), nameBoolStr(r.Bool()))
 		case kind < 80: // delete
 			var n, signer string
 			if len(recs) > 0 && r.Chance(90) {
@@ -587,7 +761,7 @@ func (g *nameGen) history() {
 				signer = g.anyAddr()
 			}
 			target = n
-			op = fmt.Sprintf("delete %s %s", nameEnc(g.variant(n)), signer)
+			op = fmt.Sprintf("delete %s %s", nameEnc(g.variant(n)), g.sp(signer, 7))
 		case kind < 90: // resolve only
 			n := g.seg() + "." + g.seg()
 			if len(recs) > 0 && r.Chance(80) {
@@ -614,13 +788,16 @@ func (g *nameGen) history() {
 				n = g.seg() + "." + Pick(r, recs).Name
 			}
 			target = n
-			op = fmt.Sprintf("root %s %s %s %s", auth, nameEnc(g.variant(n)), g.anyAddr(), nameBoolStr(r.Bool()))
+			op = fmt.Sprintf("root %s %s %s %s", g.sp(auth, 4), nameEnc(g.variant(n)), g.sp(g.anyAddr(), 7), nameBoolStr(r.Bool()))
 		}
 		res := g.emit(op)
 		k := strings.Fields(op)[0]
 		g.out.Count("op:" + k)
 		g.out.Count(k + ":" + res)
 		g.emit("dump")
+		if r.Chance(6) {
+			g.rlookup()
+		}
 		if r.Chance(45) {
 			res := g.emit("resolve " + nameEnc(target))
 			g.out.Count("resolve:" + strings.Fields(res)[0])
